@@ -87,6 +87,16 @@ impl CheckedIbcRelay {
     #[instrument(skip_all, err(level = Level::DEBUG))]
     pub(super) async fn execute<S: StateWrite>(&self, state: S) -> Result<()> {
         self.run_mutable_checks(&state).await?;
+        // verif hook H3: the simulator may replace the proof-verifying IBC core by a stub that
+        // sequences packet messages without proofs and calls the real ICS20 handler.
+        #[cfg(all(test, feature = "verif"))]
+        let mut state = state;
+        #[cfg(all(test, feature = "verif"))]
+        if let Some(result) =
+            crate::verif::chainsim::ibc_stub::execute(&self.action, &mut state).await
+        {
+            return result;
+        }
         self.action_with_handlers
             .check_and_execute(state)
             .await
